@@ -36,6 +36,14 @@ def main():
                 chk.trusted.append("axiom " + x)
         if log:
             chk.notes.append(log)
+        for extra in getattr(mod, "EXTRA_PROPS", ()):
+            ok2, thms2, log2 = common.check_property_file(extra)
+            if not ok2:
+                chk.oblige("Properties/%s.v compiles" % extra, False, log2)
+            for nm, ax in thms2:
+                chk.oblige("theorem %s" % nm, not common.axioms_ok(ax), "axioms: %s" % (", ".join(ax) or "none (closed)"))
+                for x in ax:
+                    chk.trusted.append("axiom " + x)
         chk.trusted.append("Coq 8.16.1 kernel incl. vm_compute (no native_compute) and primitive floats/ints")
         # 2..4 property-specific ties, correspondence, oracle
         if a.replay:
